@@ -314,7 +314,7 @@ func TestC11(t *testing.T) {
 			return
 		}
 	}
-	run.RequireClass("accumulate-then-emit/discard", 50)
-	run.RequireClass("input-with-lexical-error", 200)
+	run.RequireClass("accumulate-then-emit/discard", 150)
+	run.RequireClass("input-with-lexical-error", 1000)
 	_ = loxb.Front1
 }
